@@ -114,6 +114,7 @@ type VC struct {
 	closed      bool // closed-term mode (inline definitions): no fresh constants allowed
 	frameOn     bool
 	frameTg     map[string][]modTarget
+	immutable   map[string]bool // heap components assumed never written by unknown code (immutable struct fields)
 }
 
 // frameGoal: heap component h (current term cur) agrees with the entry state outside the modifies set, for objects
@@ -211,6 +212,13 @@ func (vc *VC) stGet(st *State, name string) string {
 		panic("unknown state component " + name)
 	}
 	vc.heapsRead[name] = true
+	if vc.immutable[name] {
+		// immutable field: unknown code never writes it, so every epoch sees the entry version
+		n0 := sym(fmt.Sprintf("%s@e0", name))
+		vc.declare(n0, srt)
+		vc.note("field heap %s assumed immutable after construction (contracts/ext immutable directive)", name)
+		return n0
+	}
 	n := sym(fmt.Sprintf("%s@e%d", name, st.epoch))
 	if vc.cdecl[n] {
 		return n
@@ -289,7 +297,7 @@ func (vc *VC) havocAll(st *State) {
 	st.epoch = vc.nepoch
 	st.ep = nil
 	for k := range st.m {
-		if strings.HasPrefix(k, "$g.") || strings.HasPrefix(k, "$l.") { // ghost variables and private locals survive
+		if strings.HasPrefix(k, "$g.") || strings.HasPrefix(k, "$l.") || vc.immutable[k] { // ghost variables, private locals and immutable fields survive
 			continue
 		}
 		delete(st.m, k)
